@@ -333,4 +333,5 @@ def run (ctx):
     ctx.bad('R-DEF', h, "undefined name `%s`" % nm, "NameError in the packet-in handler", (mod, node), 'D1')
   # ---- mechanisms this property shares with others: their checks' rules about these functions are obligations here too
   ctx.include('C09', ['Connection.read'], "packet-ins reach the learning switch through the connection's read loop and handler table")
+  ctx.include('C13', ['_rx_flow_mod', 'ofp_flow_mod.show', 'ofp_match.show'], "the controller's flow-mods are carried out by the switch's flow-mod handler")
   ctx.include('C18', ['_process_actions_for_packet_from_buffer', '_buffer_packet'], "buffered packets are released through the switch's use-and-free routine")
